@@ -129,6 +129,9 @@ def _graph_sum(run, batch):
             total += exp
             tol += tolc
     try:
+        if len(batch) % 2 == 1 or batch[0][0]['k'] in ('SE2', 'R2'):
+            # History dimension: the same edge objects served another Graph over OTHER Vertex objects with the same ids (all at the identity)
+            Graph(edges, [Vertex(v.id, type(v.pose).identity()) for v in verts]).calc_chi2()
         g = Graph(edges, verts)
         got = g.calc_chi2()
     except Exception as ex:  # noqa
